@@ -15,6 +15,7 @@ import (
 	"net"
 	"net/http"
 	"regexp"
+	"strconv"
 	"strings"
 	"sync"
 )
@@ -119,5 +120,25 @@ func acceptsGzip(r *http.Request) bool {
 			return false
 		}
 	}
-	return strings.Contains(r.Header.Get(headerAcceptEncoding), encodingGzip)
+	// the client accepts gzip if it lists the coding with a non-zero qvalue
+	for _, enc := range strings.Split(r.Header.Get(headerAcceptEncoding), ",") {
+		coding, params, _ := strings.Cut(enc, ";")
+		if strings.Contains(coding, encodingGzip) {
+			return !zeroQValue(params)
+		}
+	}
+	return false
+}
+
+// zeroQValue reports whether the parameters of an Accept-Encoding element
+// carry a qvalue of 0 which means "not acceptable" (RFC 7231 section 5.3.1).
+func zeroQValue(params string) bool {
+	for _, p := range strings.Split(params, ";") {
+		k, v, _ := strings.Cut(p, "=")
+		if strings.EqualFold(strings.TrimSpace(k), "q") {
+			q, err := strconv.ParseFloat(strings.TrimSpace(v), 64)
+			return err == nil && q == 0
+		}
+	}
+	return false
 }
